@@ -12,15 +12,13 @@ with open(os.path.join(VERIF, 'properties.jsonl')) as fp:
         TITLES[p['id']] = p['title']
 
 # id -> (technique, level text, level note)
-PENDING = {
+CLAIMED = {
     'C01': ('property-based testing: Hypothesis-generated DSG specs x both encoders x exhaustive declared vector space, '
             'oracle = independent reference enumeration (R-SEL closure model + R-CONN brute force)',
             'Generated-input search: every decoded instance must be final, feasible and a member of the independently '
             'enumerated architecture set; any exception is a violation when the reference set is non-empty. Finds '
             'counterexamples within the size bounds, establishes nothing beyond them.',
             'Trusted: vf/refsel.py, vf/refconn.py (self-tested against docs/theory.md); spec bounds of DESIGN.md 3.'),
-}
-CLAIMED = {
     'C02': ('property-based testing: Hypothesis-generated selection graphs, all choice orders explored as a decision-set '
             'DAG through the DSG API, oracle = closure predicate on the instance + set equality with the independent '
             'R-SEL enumeration + same decisions => same state',
@@ -57,6 +55,32 @@ CLAIMED = {
             'Exhaustive over the stated core (unsatisfiable sizes only for all-permanent placement, where documentation '
             'and statement agree), random beyond.',
             'Trusted: vf/refsel.py index predicate; constraint order = choice-id order (ordered_choice_nodes).'),
+    'C03': ('property-based testing: generated DSG specs x both encoders x exhaustive declared vector space; oracle = '
+            'round trip decode(decode(x).x_corr), vector-describes-instance relation and injectivity of corrected vectors',
+            'Generated-input search with a round-trip / metamorphic oracle over all vectors of each generated graph.',
+            'Connection sub-vectors are judged through fixed point + injectivity (their coding itself is C10).'),
+    'C04': ('property-based testing: generated DSG specs small enough for a full reference enumeration; oracle = set equality '
+            'between decoded get_all_discrete_x rows and the independent R-SEL x R-CONN x DV reference, plus count laws',
+            'Generated-input search; both directions (sound rows, complete rows, exactly once) against brute force.',
+            'Trusted: vf/refsel.py, vf/refconn.py; reference <= 3000 full architectures per graph.'),
+    'C07': ('property-based testing: generated DSG specs x encoders x all vectors; oracle = activeness contract (active => '
+            'node exists, inactive => canonical value, unconditional => always active) and path agreement between '
+            'enumeration, create=True/False decodes and corrected raw vectors',
+            'Generated-input search with implication and differential oracles over all paths to each valid design.',
+            'Encoder-level direct-hit/imputed agreement is covered by C10 (known finding KF02).'),
+    'C14': ('property-based testing: generated DSG specs (incl. zero/forced choices, incompatibilities, linked choices) x all '
+            'FAST vectors; oracle = R-SEL/R-CONN membership, covering of the reference set, fixed point, differential '
+            'against the COMPLETE encoder',
+            'Generated-input search; soundness and onto-ness against the reference enumeration, plus encoder differential.',
+            'Trusted: reference models; reference <= 3000 full architectures.'),
+    'C16': ('property-based testing: generated graphs with design-variable nodes x encoders x create flag x in/on/out-of-range '
+            'values (negative, too large, non-integer, +/-inf); oracle = clamp model for stored and reported values',
+            'Generated-input search against an explicit clamp model; direct set_des_var_value included.',
+            'NaN is not generated (no contract).'),
+    'C17': ('property-based testing: generated graphs with metric nodes of every direction/reference/type combination x all '
+            'decoded architectures x drawn evaluator plans; oracle = implication table from the statement + evaluation model',
+            'Generated-input search; implications are taken literally (only-if where the text says so).',
+            'Permanent = necessary closure of the start nodes for the if-direction; every-architecture (R-SEL) for only-if.'),
 }
 
 NOT_YET = 'check not built yet in this session (see DESIGN.md 6 for the plan); will be claimed once it is registered'
